@@ -132,19 +132,68 @@ class Run:
         bounds = starts + [len(self.ops)]
         return [(bounds[i], bounds[i + 1]) for i in range(len(starts))]
 
-    def divergences(self):
-        """first line in each program where implementation and model differ"""
+    def divergences(self, project=None):
+        """first line in each program where implementation and model differ (after an optional projection)"""
         out = []
         n = min(len(self.impl), len(self.model))
+        pj = project or (lambda op, l: l)
         for (a, b) in self.programs():
             for i in range(a, min(b, n)):
-                if self.impl[i] != self.model[i]:
+                if self.impl[i] != self.model[i] and pj(self.ops[i], self.impl[i]) != pj(self.ops[i], self.model[i]):
                     out.append((a, b, i))
                     break
             else:
                 if b > n:
                     out.append((a, b, n))
         return out
+
+
+def split_frames(hexs):
+    """response stream -> [(opcode, opaque, status)] using only header lengths; None if it does not split"""
+    try:
+        b = bytes.fromhex(hexs) if hexs not in ("-", "") else b""
+    except ValueError:
+        return None
+    out = []
+    while b:
+        if len(b) < 24 or b[0] != 0x81:
+            return None
+        bl = int.from_bytes(b[8:12], "big")
+        if len(b) < 24 + bl:
+            return None
+        out.append((b[1], int.from_bytes(b[12:16], "big"), int.from_bytes(b[6:8], "big")))
+        b = b[24 + bl:]
+    return out
+
+
+def framing_projection(with_dump=False, with_status=False):
+    """what the framing properties (C09, C12, C13, C18) constrain: which requests were answered, in what order,
+    whether the connection closed — not the store-level content of the answers (other properties own that)"""
+    def st(x):
+        return x[2] if with_status else (3 if x[2] == 3 else 0)
+
+    def pj(op, line):
+        if op.startswith("dump"):
+            if not with_dump:
+                return "dump"
+            return "dump " + ";".join(sorted(e.split(" ")[0] for e in line[5:].split(";") if e))
+        if line.startswith("out "):
+            parts = line.split(" ")
+            fr = split_frames(parts[1])
+            if fr is None:
+                return line
+            return "out " + ",".join(f"{o:02x}:{q:08x}:{st((o, q, s))}" for (o, q, s) in fr) + " " + parts[-1]
+        if line.startswith("dec"):
+            toks = []
+            for t in line.split(" ")[1:]:
+                if t.startswith("F") and t != "Fsilent":
+                    fr = split_frames(t[1:])
+                    toks.append("F?" if not fr else f"F{fr[0][0]:02x}:{fr[0][1]:08x}:{st(fr[0])}")
+                else:
+                    toks.append(t)
+            return "dec " + " ".join(toks)
+        return line
+    return pj
 
 
 def run_harness(suite, outdir, args, timeout=3000):
@@ -288,6 +337,9 @@ def owners(run, a, b, i):
             bi, bm = impl_i[5:].split(" ")[0], model_i[5:].split(" ")[0]
             if len(bi) >= 48 and len(bm) >= 48 and bi[:32] == bm[:32] and bi[32:48] != bm[32:48] and bi[48:] == bm[48:]:
                 return {"C02"}, f"only the CAS in the response differs, opcode {opc:#x} key {r['key'][:16]}"
+            if len(bi) >= 48 and len(bm) >= 48 and bi[12:16] == bm[12:16] and bi[32:] == bm[32:]:
+                # same status, cas and payload: only layout/correlation fields of the header differ
+                return {"C11"}, f"only header layout fields of the response differ, opcode {opc:#x} key {r['key'][:16]}"
             if (len(bi) >= 48) != (len(bm) >= 48):
                 own |= {"C12", "C19"}
             if len(bi) >= 48 and len(bm) >= 48 and bi[:4] != bm[:4]:
